@@ -43,10 +43,23 @@ SlowRejection(e, prm) ==
       [] e.k = "union" -> SlowRejection(e.l, prm) \/ SlowRejection(e.r, prm)
       [] e.k \in {"trans", "rot"} -> SlowRejection(e.d, prm)
       [] OTHER -> FALSE
+\* nesting depth of Boolean / motion nodes.  Membership of a polygon is a loop over the candidate points in the library, and every
+\* rejection level multiplies the number of candidates: calls on polygons nested three and more levels deep run for tens of CPU
+\* seconds (measured: 11 s for n = 4) -- finite, but beyond the watchdog, so exceeding the budget is not judged there
+RECURSIVE Depth(_)
+Depth(e) == CASE e.k \in {"union", "cut", "and", "prod"} -> 1 + (IF Depth(e.l) > Depth(e.r) THEN Depth(e.l) ELSE Depth(e.r))
+              [] e.k \in {"trans", "rot", "bd"} -> 1 + Depth(e.d)
+              [] OTHER -> 0
+DeepPolygon(e) == HasNode(e, "poly") /\ Depth(e) >= 3
 CallClause(t, c) ==
     IF c.exc = "skipped" THEN "ok"
+    ELSE IF c.exc = "hang" /\ ~t.scenario.boundary /\ DeepPolygon(E(t)) THEN "ok"
     ELSE IF c.exc = "hang" /\ ~t.scenario.boundary /\ (\E r \in (IF c.prm = <<>> THEN {<<>>} ELSE {c.prm[i] : i \in DOMAIN c.prm}) : SlowRejection(E(t), r)) THEN "ok"
     ELSE IF c.exc = "hang" THEN "sampling-does-not-terminate"
+    \* a filtered sampler gave up after 20 rounds without a point that passes the filter (documented): on BOUNDARIES the share that
+    \* passes the filter is not established by the lattice test of Judgeable, and small n are allotted to the operands' boundaries
+    \* deterministically (the sampling law is C11's subject), so the give-up is not judged there
+    ELSE IF c.exc = "FilterGaveUp" /\ t.scenario.boundary THEN "ok"
     ELSE IF c.exc # "" THEN "sampling-failed:" \o c.exc
     ELSE IF \E i \in DOMAIN c.rows : ~RowOK(t, c, c.rows[i]) THEN
               (IF t.scenario.boundary THEN "boundary-sample-off-boundary" ELSE "sample-outside-domain")
